@@ -116,7 +116,7 @@ Init ==
        [] part = "a85"   -> input \in Seqs(A85Syms, MaxA85) /\ aux = <<>>
        [] part = "rl"    -> input \in {rs \in Seqs(RunOptions, MaxRuns) : RLWellShaped(rs)} /\ aux = <<>>
        [] part = "pred"  -> /\ input \in [1..RowLen -> Samples]                                  \* the raw row
-                            /\ aux \in [tag : 0..4, bpp : 1..2, prev : [1..RowLen -> Samples]]
+                            /\ aux \in [tag : 0..4, bpp : {1, RowLen}, prev : [1..RowLen -> Samples]]
        [] part = "chain" -> /\ input \in {c \in Seqs(Codecs, 3) : Len(c) >= 1}
                             /\ aux \in {p \in Seqs({"none", "p1", "p2"}, 3) : Len(p) = Len(input)}
 Next == UNCHANGED vars
